@@ -332,6 +332,8 @@ impl BudgetEnforcer {
         {
             if matches!(ev, Event::DocumentStart(_)) {
                 self.report.reset();
+                // (not limited under this policy, but reported: `reset` keeps the count running)
+                self.report.documents += 1;
                 self.depth = 0;
                 self.containers.clear();
                 self.defined_anchors.clear();
